@@ -99,7 +99,15 @@ fn gen_opts(profile: Profile, tier: Tier) -> GenOptions {
     }
 }
 
-pub const PIPELINE_CHECKS: &[&str] = &["C01", "C02", "C03", "C04", "C05", "C07", "C08", "C09", "C10", "C11", "C13"];
+pub const PIPELINE_CHECKS: &[&str] = &["C01", "C02", "C03", "C04", "C05", "C06", "C07", "C08", "C09", "C10", "C11", "C13"];
+
+/// Dispatch a case to the oracle of its check.
+pub fn evaluate_case(check: &str, scenario: &Arc<Scenario>, sched: &SchedSpec, trace: Option<Trace>, want: &PipelineWant) -> CaseOutput {
+    match check {
+        "C06" => oracle::run_relation_case(scenario, sched, trace, want),
+        _ => oracle::run_pipeline_case(scenario, sched, trace, want),
+    }
+}
 
 /// Plan case `idx` of a pipeline check.
 pub fn plan_pipeline_case(check: &str, tier: Tier, seed: u64, idx: u64) -> Plan {
@@ -113,6 +121,10 @@ pub fn plan_pipeline_case(check: &str, tier: Tier, seed: u64, idx: u64) -> Plan 
         "C05" => (
             [Profile::Mixed, Profile::Conflict, Profile::Invalid, Profile::Beneficiary, Profile::Lifecycle, Profile::Precompile][rng.below(6) as usize],
             SchedMode::Strict,
+        ),
+        "C06" => (
+            [Profile::Mixed, Profile::Conflict, Profile::Invalid, Profile::Beneficiary, Profile::Lifecycle, Profile::Code, Profile::Reserve, Profile::Precompile][rng.below(8) as usize],
+            SchedMode::Any,
         ),
         "C07" => (Profile::Beneficiary, SchedMode::Any),
         "C08" => (Profile::Lifecycle, SchedMode::Any),
@@ -135,6 +147,26 @@ pub fn plan_pipeline_case(check: &str, tier: Tier, seed: u64, idx: u64) -> Plan 
                 0 | 1 => group = faultgen::add_panic_fault(&mut scenario, &mut rng),
                 2 => group = faultgen::add_error_faults(&mut scenario, &mut rng),
                 _ => {}
+            }
+        }
+        "C06" => {
+            // all four delegated-safety policy combinations; a quarter of the runs on a faulty database
+            if scenario.evm.spec >= revm_primitives::hardfork::SpecId::PRAGUE || rng.chance(1, 4) {
+                scenario.grevm.forbid_delegated_create = rng.chance(1, 2);
+                scenario.grevm.reserve_delegated_balance = rng.chance(1, 2);
+            }
+            scenario.grevm.min_parallel_txs = 0;
+            if rng.chance(1, 4) {
+                let mut only_persistent = Prng::new(rng.next_u64());
+                let before = scenario.faults.len();
+                group = faultgen::add_error_faults(&mut scenario, &mut only_persistent);
+                for f in scenario.faults.iter_mut().skip(before) {
+                    f.mode = crate::scenario::FaultMode::Persistent;
+                }
+                scenario.faults.retain(|f| !matches!(f.key, crate::scenario::FaultKey::Any));
+                if group.starts_with("transient") {
+                    group = "persistent-fault/reference-key";
+                }
             }
         }
         "C10" => {
@@ -175,6 +207,7 @@ pub fn filter_findings(check: &str, findings: Vec<Finding>) -> (Vec<Finding>, Ve
             "C03" => matches!(f.property, "C03" | "C01" | "C02").then_some("C03"),
             "C04" => (f.property == "C04" || f.property == "C02").then_some("C04"),
             "C05" => (f.property == "C05").then_some("C05"),
+            "C06" => (f.property == "C06").then_some("C06"),
             "C07" => matches!(f.property, "C01" | "C02" | "C03").then_some("C07"),
             "C08" => matches!(f.property, "C01" | "C02" | "C03").then_some("C08"),
             "C09" => matches!(f.property, "C01" | "C02" | "C03").then_some("C09"),
@@ -211,7 +244,7 @@ fn sample_of(plan: &Plan, out: &CaseOutput) -> Value {
 
 pub fn pipeline_case_record(check: &str, tier: Tier, seed: u64, idx: u64) -> CaseRecord {
     let plan = plan_pipeline_case(check, tier, seed, idx);
-    let out = oracle::run_pipeline_case(&plan.scenario, &plan.sched, None, &plan.want);
+    let out = evaluate_case(check, &plan.scenario, &plan.sched, None, &plan.want);
     let sample = (idx < 3).then(|| sample_of(&plan, &out));
     let (findings, harness_errors) = filter_findings(check, out.findings);
     CaseRecord { idx, findings, harness_errors, stats: out.stats, sample, group: plan.group }
@@ -232,6 +265,7 @@ pub fn check_spec(id: &str) -> CheckSpec {
         "C02" => CheckSpec { id: "C02", runs_quick: 150_000, runs_thorough: 6_000_000, level: "exploration", rule: rule_pipeline },
         "C03" => CheckSpec { id: "C03", runs_quick: 150_000, runs_thorough: 6_000_000, level: "exploration", rule: rule_pipeline },
         "C04" => CheckSpec { id: "C04", runs_quick: 120_000, runs_thorough: 5_000_000, level: "fault_enumeration", rule: rule_pipeline },
+        "C06" => CheckSpec { id: "C06", runs_quick: 30_000, runs_thorough: 1_500_000, level: "exploration", rule: "cases = seeded blocks (all profiles, all four delegated-safety policy combinations, a quarter on a persistently faulty database), each executed five ways: simulated parallel run, simulated parallel run with another worker count and schedule, min_parallel_txs above the block size, force_sequential, fallback_sequential() entry; non-trivial = a re-execution, erroring attempt, fallback or error result; distinct = distinct abstract behaviour" },
         "C05" => CheckSpec { id: "C05", runs_quick: 150_000, runs_thorough: 6_000_000, level: "exploration", rule: rule_pipeline },
         "C07" => CheckSpec { id: "C07", runs_quick: 120_000, runs_thorough: 5_000_000, level: "exploration", rule: rule_pipeline },
         "C08" => CheckSpec { id: "C08", runs_quick: 120_000, runs_thorough: 5_000_000, level: "exploration", rule: rule_pipeline },
@@ -272,7 +306,7 @@ pub fn evaluate_replay(file: &ReplayFile, use_trace: bool) -> (Vec<Finding>, Vec
         want.plain_state = true;
     }
     let trace = use_trace.then(|| file.trace.clone());
-    let out = oracle::run_pipeline_case(&scenario, &file.sched, trace, &want);
+    let out = evaluate_case(&file.check, &scenario, &file.sched, trace, &want);
     let (mine, harness) = filter_findings(&file.check, out.findings.clone());
     (mine, harness, out)
 }
